@@ -308,6 +308,20 @@ def g_bits(rng, n):
     i32 = torch.tensor([5, -7], dtype=torch.int32)
     m64 = torch.tensor(2**10 - 1)
     chk("int32 tensor op 0-dim int64 stays int32", (i32 + m64 // 2).dtype == torch.int32 and (i32 & ~m64).dtype == torch.int32 and m64.dtype == torch.int64)
+    i0 = torch.tensor(5, dtype=torch.int32)
+    chk("0-dim int32 op 0-dim int64 promotes to int64", (i0 + m64).dtype == torch.int64 and (i0 & ~m64).dtype == torch.int64)
+    try:
+        (i0 + m64).view(torch.float32)
+        chk("view(float32) of a 0-dim int64 raises", False)
+    except RuntimeError:
+        chk("view(float32) of a 0-dim int64 raises", True)
+    chk("view(float32) of a 0-dim int32 works", torch.tensor(0, dtype=torch.int32).view(torch.float32).dtype == torch.float32)
+    try:
+        torch.clip(torch.zeros(2), -(2**127), 2**127)
+        chk("clip with a Python int bound beyond int64 raises OverflowError", False)
+    except OverflowError:
+        chk("clip with a Python int bound beyond int64 raises OverflowError", True)
+    chk("clip with a Python int bound inside int64 works", torch.equal(torch.clip(torch.tensor([1e30]), -(2**62), 2**62), torch.tensor([float(2**62)])))
     chk("two's complement & / ~", (torch.tensor([-1], dtype=torch.int32) & ~torch.tensor(255)).item() == -256)
     r = torch.randint(0, 2**5, (1000,), dtype=torch.int32)
     chk("randint range/dtype", r.dtype == torch.int32 and int(r.min()) >= 0 and int(r.max()) < 32)
